@@ -80,7 +80,7 @@ func genRequest(t *rapid.T, f *model.Forest) []int {
 }
 
 func genC02(t *rapid.T) C02Case {
-	lim := genLimits(t)
+	lim := genLimitsGiant(t)
 	f := &model.Forest{}
 	n := rapid.IntRange(1, lim.maxBlocks).Draw(t, "nblocks")
 	c := C02Case{}
@@ -234,5 +234,5 @@ func runC02(c C02Case) *Result {
 }
 
 func TestC02(t *testing.T) {
-	runSpec(t, Spec[C02Case]{ID: "C02", Gen: genC02, Run: runC02})
+	runSpec(t, Spec[C02Case]{ID: "C02", Gen: genC02, Run: runC02, Pre: preScaleC02})
 }
